@@ -135,6 +135,30 @@ def make_target(spec):
             return bits_of(o.key) + [("len", len(o.key))], r.log
 
         return dict(f=f, hint=2, expect_len=8 * size + 1, space=256**size, legal=lambda pos: {0, 1})
+    if kind == "wallet_salt":
+        # the salt AppWallet.encrypt_key() draws for every encrypted key (AES from `cryptography` or the pinned stand-in)
+        import base64
+
+        from passlib import totp as T
+
+        from mc.checks.c15 import ensure_aes
+
+        ensure_aes()
+        size = spec["size"]
+
+        def f(ans):
+            r = env.ScriptedRng(ans)
+            w = T.AppWallet({"1": "app-secret"}, encrypt_cost=0)
+            if size is not None:
+                w.salt_size = size
+            with env.scripted_rng(r):
+                enc = w.encrypt_key(b"0123456789")
+            txt = enc["s"]
+            salt = base64.b32decode(txt + "=" * (-len(txt) % 8))
+            return bits_of(salt) + [("len", len(salt))], r.log
+
+        n = 12 if size is None else size
+        return dict(f=f, hint=2, expect_len=8 * n + 1, space=256**n, legal=lambda pos: {0, 1})
     if kind == "generate_secret":
         from passlib import totp as T
         from passlib.utils.binary import BASE64_CHARS
@@ -276,6 +300,8 @@ def tname(spec):
         return f"salt:{spec['hasher']}:{spec.get('salt_size')}" + (f":{extra}" if extra else "")
     if k == "totp_new":
         return f"TOTP.new({spec['alg']},{spec['size']})"
+    if k == "wallet_salt":
+        return f"AppWallet.encrypt_key.salt({spec['size'] or 'default12'})"
     if k == "generate_secret":
         return f"generate_secret({spec['entropy']},{len(spec.get('charset') or '') or 'default'})"
     if k in ("genword", "genphrase"):
@@ -773,6 +799,8 @@ def targets(quick, seed):
     for alg, dsz in (("sha1", 20), ("sha256", 32), ("sha512", 64)):
         for size in (sorted({10, 16, dsz}) if quick else range(10, dsz + 1)):
             ts.append({"kind": "totp_new", "alg": alg, "size": size})
+    for size in (None, 1, 2, 16) if quick else (None,) + tuple(range(1, 33)):
+        ts.append({"kind": "wallet_salt", "size": size})
     for ent in ((1, 2, 6, 7, 64, 128, 256, 512) if quick else list(range(1, 65)) + [100, 128, 255, 256, 257, 512]):
         ts.append({"kind": "generate_secret", "entropy": ent})
     ts.append({"kind": "generate_secret", "entropy": 80, "charset": "0123456789"})
@@ -873,7 +901,10 @@ def run(ctx):
     ctx.merge(acc)
     from passlib import totp as T
 
-    if not T.AES_SUPPORT:
-        ctx.assume("TOTP AppWallet salt (needs the 'cryptography' package, absent on this host) is not enumerated")
+    from mc.checks.c15 import ensure_aes
+
+    if ensure_aes() == "stand-in":
+        ctx.assume("TOTP AppWallet salts are drawn with AES-256-CTR supplied by the pinned pure-Python stand-in (mc/refs/aes.py): "
+                   "package 'cryptography' is absent on this host; the salt is drawn by the library's own code before the cipher is used")
     ctx.assume("bcrypt.gensalt() used by the libpass bcrypt hashers draws from os.urandom inside the bcrypt wheel: third-party, not owned")
     ctx.assume("uniformity is relative to a uniform answer per request of the random source (random.Random API level)")
